@@ -102,6 +102,14 @@ CHECKS = {
         note="The reference is the real code's own cache-less answer on the canonical layout (differential oracle; SHA-256 and MKTree are not re-implemented, the sensitivity clauses guard against vacuity). tmpfs readdir order is a function of creation order; the run counts distinct listings and refuses a verdict if fewer than 720 appear for 6 files. Cache histories are over unchanged files only. Symlinks, a second 'immutable' directory found only by the fallback walk, unpadded or unparsable immutable-extension names are observations, not judged.",
         design="§4 C12",
     ),
+    "C13": dict(
+        level="model_checking",
+        engine="mc-chain",
+        technique="explicit-state exploration by replay of the real import stack (depth-bounded BFS with canonical-state de-duplication from four prepared states + deviation balls around a nominal schedule), differential against from-scratch imports",
+        text="Every event history within the bound over chain growth (Advance 1/7/16), forks to structurally chosen points (tip-1, range boundaries and their neighbours, first stored block, before the first stored block / origin, and forks armed to happen in the middle of a scan), imports at tip / tip-5 / range-boundary targets, restarts, reconnects and pruning is executed on the real stack CardanoBlockScanner -> ChainReaderBlockStreamer -> CardanoChainDataImporter -> SignerCardanoChainDataRepository -> CardanoTransactionRepository on SQLite plus both transaction signable builders, for three roll-forward batch sizes; only the Cardano node is a double (a chain-sync server). After every import the block, transaction, range-root and legacy range-root tables, and the Merkle roots the builders return for all beacons, are compared with those of fresh nodes that import the canonical chain once. 14.6k histories / 5.3k states (quick), 152k histories / 43k states (thorough).",
+        note="Trusted: the chain-sync double (find_intersect moves the read pointer when the point is on the chain, the next answer after an intersect or a fork below the pointer is RollBackward, otherwise RollForward / Await; stated in the evidence), SQLite, synthetic block content. The oracle is differential: a defect common to fresh and incremental import is invisible. Chains <= 50 blocks, targets <= tip, depth <= 3 / 4. States behind a table divergence are not extended. pallas itself is not run.",
+        design="§4 C13",
+    ),
     "C14": dict(
         level="model_checking",
         engine="mc-aggregator",
@@ -149,6 +157,14 @@ CHECKS = {
         text="Every configuration of a small lattice (range x ancillary option x target pre-state x compression x ledger layout; 6 quick / 48 thorough) is combined with every single alteration (thorough: every compatible pair on three configurations) of what a mirror can serve: 42 kinds of extra entries in immutable archives (ledger/, volatile/, root, marker names, nested and ../ and absolute paths, directories, symlinks and hard links, immutable numbers 0..5) at each position, 20 in the ancillary archive, every honest entry removed / tampered / served as a link, 12 manifest alterations (hash changed, entries removed / merged / added, signature removed / altered / by another key, manifest missing / garbage / duplicated), stream cuts after and inside every entry, truncated and missing archives, and a directory or file in the way of each listed ancillary file. Each case runs through the real Client::cardano_database_v2().download_unpack; the verdict compares complete recursive listings of target, an outside victim directory and the mirror before and after against an independently stated allowed set (trios of the requested range, files vouched with matching SHA-256 by the manifest the harness really signed, the two bootstrap markers), never the return value; an honest download must restore everything. 1475 (quick) / 46,834 (thorough) downloads.",
         note="max_parallel_downloads = 1 for altered cases, so the abort race between concurrently unpacking archives is not enumerated; one location per archive (no second-mirror fallback); runs as root (no permission faults); beacon 3, 700-byte files; tar / zstd / flate2 are part of the code under test; bytes of immutable files are C10's business; the manifest key is the harness's (real Ed25519).",
         design="§4 C19",
+    ),
+    "C20": dict(
+        level="model_checking",
+        engine="mc-signer",
+        technique="explicit-state exploration by replay (depth-bounded BFS with canonical-state de-duplication, edit-distance balls around a nominal multi-epoch schedule, fault / restart differential) of the real signer node against an in-process reference aggregator",
+        text="Every transition is a call of the real StateMachine::cycle on the real SignerRunner, services and file-backed SQLite stores, assembled as the repository's StateMachineTester does. All histories over a 15-event alphabet (tick, epoch and chain progress, aggregator down / stale settings / registration round closed, partial registration of other signers, lost publish and registration acknowledgements, restart) are run up to depth 3 (quick) / 4 (thorough) from 3 / 4 prepared states, all single deviations of a 4-epoch / 5-epoch nominal schedule, and in thorough all pairs of faults; runs with a restart or a lost acknowledgement at every position are compared with the uninterrupted run. Every published signature is judged on the spot by an independent reference aggregator that applies 'registered in e, recorded for e+1, signs in e+2' with its own constants to keys, stake distribution and parameters (all of which change every epoch) and verifies it with mithril-common's MultiSigner; at most one acknowledged publication per (epoch, entity, beacon); nothing published before keys registered two epochs earlier exist; after faults clear the signer signs again. 3040 replays / 1108 states (quick), 28k replays / 5.7k states (thorough).",
+        note="The Cardano node is the repository's test doubles; the aggregator is the harness reference called in process (HTTP client, message adapters and the publisher retry chain are not exercised). Events are atomic with respect to a cycle (no mid-cycle crashes). Signer keys come from the OS RNG, canonical states abstract key bytes. Only acknowledged publications count for 'once'. Trusted: mithril_common::protocol::SignerBuilder / MultiSigner and mithril-stm for verification (C01 / C16). <= 5 (+3 tail) epochs, 3 signers.",
+        design="§4 C20",
     ),
 }
 
